@@ -477,8 +477,23 @@ def classify_header(case):
 # --------------------------------------------------------------------------------------------------
 # account proofs: hand-encoded ShardStateUnsplit (block.tlb) with a HashmapAugE 256 of ShardAccount
 
-def cc(grams):
-    return rb.coins(grams) + '0'                       # CurrencyCollection with an empty extra-currency dictionary
+def cc(grams, extra=None):
+    """CurrencyCollection = grams:Grams other:(HashmapE 32 (VarUInteger 32)); returns (bits, refs)"""
+    if not extra:
+        return rb.coins(grams) + '0', []
+    mapping = {rb.uint(k, 32): (rb.var_uint(v, 5), []) for k, v in extra.items()}
+    return rb.coins(grams) + '1', [refdict.build(mapping, 32)]
+
+
+def add_extra(a, b):
+    out = dict(a)
+    for k, v in b.items():
+        out[k] = out.get(k, 0) + v
+    return out
+
+
+def acc_extra(a):
+    return {int(k): v for k, v in (a.get('extra') or [])}
 
 
 def account_cell(wc, acc_id_hex, a):
@@ -489,15 +504,16 @@ def account_cell(wc, acc_id_hex, a):
     bits = '1' + rb.addr_std(wc, bytes.fromhex(acc_id_hex))
     bits += rb.var_uint(a['cells'], 3) + rb.var_uint(a['bits'], 3) + rb.var_uint(0, 3)
     bits += rb.uint(a['last_paid'], 32) + '0'
-    bits += rb.uint(a['lt'], 64) + cc(a['balance'])
-    refs = []
+    cb, refs = cc(a['balance'], acc_extra(a))
+    bits += rb.uint(a['lt'], 64) + cb
+    refs = list(refs)
     if a['state'] == 'uninit':
         bits += '00'
     elif a['state'] == 'frozen':
         bits += '01' + rb.uint(int.from_bytes(attacker_hash(('frozen', acc_id_hex)), 'big'), 256)
     else:                                              # account_active$1 _:StateInit  (no split_depth, no special, code, data, no library)
         bits += '1' + '00' + '1' + '1' + '0'
-        refs = [rc.RCell(rb.uint(a['balance'] % 65536, 16) + '1' * (a['cells'] % 9), [rc.RCell('10101', [])]), rc.RCell(rb.uint(a['lt'] % 2 ** 32, 32), [])]
+        refs += [rc.RCell(rb.uint(a['balance'] % 65536, 16) + '1' * (a['cells'] % 9), [rc.RCell('10101', [])]), rc.RCell(rb.uint(a['lt'] % 2 ** 32, 32), [])]
     return rc.RCell(bits, refs)
 
 
@@ -512,20 +528,30 @@ def build_state(case):
         cells[a['id']] = c
         mapping[key] = (rb.uint(int.from_bytes(attacker_hash(('lth', a['id'])), 'big'), 256) + rb.uint(a['lt'], 64), [c])
     bal = {rb.uint(int(a['id'], 16), 256): a['balance'] for a in accs}
+    ext = {rb.uint(int(a['id'], 16), 256): acc_extra(a) for a in accs}
+
+    def total(keys):
+        e = {}
+        for k in keys:
+            e = add_extra(e, ext[k])
+        return cc(sum(bal[k] for k in keys), e)
 
     def extra_of(keys, is_leaf, path):                  # depth_balance$_ split_depth:(#<= 30) balance:CurrencyCollection
-        return rb.uint(0, 5) + cc(sum(bal[k] for k in keys)), []
+        b, r = total(keys)                              # with extra currencies the dictionary reference PRECEDES the value's
+        return rb.uint(0, 5) + b, r
     if accs:
         root = refdict.build(mapping, 256, extra_of=extra_of)
-        accounts = rc.RCell('1' + rb.uint(0, 5) + cc(sum(bal.values())), [root])
+        b, r = total(list(bal))
+        accounts = rc.RCell('1' + rb.uint(0, 5) + b, [root] + r)
     else:
-        accounts = rc.RCell('0' + rb.uint(0, 5) + cc(0), [])
+        accounts = rc.RCell('0' + rb.uint(0, 5) + cc(0)[0], [])
     head = (rb.uint(0x9023afe2, 32) + rb.sint(case['global_id'], 32)
             + '00' + rb.uint(0, 6) + rb.sint(wc, 32) + rb.uint(0, 64)                     # shard_ident$00
             + rb.uint(case['seqno'], 32) + rb.uint(0, 32) + rb.uint(case['utime'], 32) + rb.uint(case['gen_lt'], 64)
             + rb.uint(max(0, case['seqno'] - 1), 32))
     out_q = rc.RCell(rb.uint(case['seqno'] % 251, 8), [rc.RCell('1', [])])
-    tail = rc.RCell(rb.uint(1, 64) + rb.uint(2, 64) + cc(sum(bal.values())) + cc(3) + '0' + '0', [])
+    tb, tr = total(list(bal)) if accs else cc(0)
+    tail = rc.RCell(rb.uint(1, 64) + rb.uint(2, 64) + tb + cc(3)[0] + '0' + '0', tr)
     # field order: ... min_ref_mc_seqno out_msg_queue_info:^ before_split:(## 1) accounts:^ ^[...] custom:(Maybe ^McStateExtra)
     S = rc.RCell(head + '0' + '0', [out_q, accounts, tail], False)
     return S, cells
@@ -688,7 +714,9 @@ def _acc_case(draw):
         accs.append({'id': i, 'balance': draw(st.sampled_from([0, 1, 10 ** 9, 2 ** 64, 2 ** 100 - 1])) + draw(st.integers(0, 1000)),
                      'lt': draw(st.one_of(st.integers(0, 2 ** 48), st.sampled_from([2 ** 63, 2 ** 64 - 1]))),
                      'state': draw(st.sampled_from(['uninit', 'active', 'active', 'frozen'])), 'cells': draw(st.integers(0, 2 ** 20)),
-                     'bits': draw(st.integers(0, 2 ** 30)), 'last_paid': draw(st.integers(0, 2 ** 32 - 1))})
+                     'bits': draw(st.integers(0, 2 ** 30)), 'last_paid': draw(st.integers(0, 2 ** 32 - 1)),
+                     'extra': draw(st.one_of(st.just([]), st.just([]), st.lists(st.tuples(st.integers(0, 2 ** 32 - 1), st.integers(1, 2 ** 64)).map(list),
+                                                                                  min_size=1, max_size=2, unique_by=lambda t: t[0])))})
     mut = draw(st.one_of(st.none(), st.fixed_dictionaries({'kind': st.sampled_from(ACC_MUTS), 'a': st.integers(0, 255)})))
     return {'accounts': accs, 'target': draw(st.integers(0, 5)), 'wc': draw(st.sampled_from([0, -1, 0, 5, -128, 127])),
             'global_id': draw(st.sampled_from([-239, -3, 0, 2 ** 31 - 1])), 'seqno': draw(st.integers(1, 2 ** 31 - 1)),
@@ -707,6 +735,8 @@ def classify_account(case):
     yield 'account-in-proof=' + case['acc_in_proof']
     t = case['accounts'][case['target'] % len(case['accounts'])]
     yield 'state=' + t['state']
+    if t.get('extra'):
+        yield 'target-has-extra-currencies (dictionary reference precedes the account reference in its leaf)'
 
 
 def nt_any(case):
